@@ -454,7 +454,65 @@ func c06Writer(c *eng.Ctx) {
 	}
 	// every Encode error is returned
 	nEnc := 0
-	eng.Instrs(we, func(in ssa.Instruction) {
+	isEncodeLike := map[ssa.Instruction]bool{}
+	// propagates: from the failure edge of `call` (an Encode, or a helper that
+	// returns the Encode error) every path of fn returns that error; if fn is
+	// itself a helper of WriteEntries the same is required of its call site
+	var propagates func(fn *ssa.Function, call *ssa.Call, what string)
+	propagates = func(fn *ssa.Function, call *ssa.Call, what string) {
+		isEncodeLike[call] = true
+		ev := saveErr(call)
+		returnsIt := func(x ssa.Instruction) bool {
+			r, ok := x.(*ssa.Return)
+			if !ok {
+				return false
+			}
+			rv := eng.RetVals(r)
+			return eng.Same(rv[len(rv)-1], ev) || nonNilAt(rv[len(rv)-1], eng.FactsAt(r)) == eng.Yes
+		}
+		hit, path := eng.Search(fn, call, eng.AssumeErr(ev, false), returnsIt, func(x ssa.Instruction) bool {
+			if _, ok := x.(*ssa.Return); ok {
+				return !returnsIt(x)
+			}
+			// carrying on (another record, or the sync) after a failed Encode
+			if c2, ok := x.(*ssa.Call); ok {
+				if eng.CalleeIs(&c2.Call, "encoding/json", "*Encoder.Encode") || eng.Callee(&c2.Call) == syn || isEncodeLike[c2] {
+					return true
+				}
+			}
+			return false
+		})
+		c.Check(hit == nil, "R-C06-6", fn, call.Pos(), "Encode error of "+what, "an Encode error is returned to the caller", func() string {
+			if hit == nil {
+				return ""
+			}
+			return eng.InstrStr(hit) + " at " + c.P.Pos(hit.Pos()) + " is reached after the failed Encode without returning its error: " + c.P.PathStr(path)
+		}())
+		// the error is tested or returned at all
+		tested := false
+		eng.Instrs(fn, func(x ssa.Instruction) {
+			if ifi, ok := x.(*ssa.If); ok {
+				if v, _, isE := eng.CondOf(ifi.Cond, true).ErrCheck(); isE && eng.Same(v, ev) {
+					tested = true
+				}
+			}
+			if r, ok := x.(*ssa.Return); ok {
+				rv := eng.RetVals(r)
+				if len(rv) > 0 && eng.Same(rv[len(rv)-1], ev) {
+					tested = true
+				}
+			}
+		})
+		c.Check(tested, "R-C06-6", fn, call.Pos(), "Encode error tested", "the Encode error is tested (or handed straight to the caller)", "result unused")
+		if fn != we {
+			if cs, ok := eng.UniqueCallSite(fn).(*ssa.Call); ok && cs != nil {
+				propagates(cs.Parent(), cs, what+" (through "+eng.FName(fn)+")")
+			} else {
+				c.Undecided("R-C06-6", fn, call.Pos(), "Encode call in "+eng.FName(fn), "not in WriteEntries nor in a helper called from exactly one place")
+			}
+		}
+	}
+	eng.InstrsDeep(we, func(fn *ssa.Function, in ssa.Instruction) {
 		call, ok := in.(*ssa.Call)
 		if !ok || !eng.CalleeIs(&call.Call, "encoding/json", "*Encoder.Encode") {
 			return
@@ -462,44 +520,8 @@ func c06Writer(c *eng.Ctx) {
 		nEnc++
 		// the encoder is the Writer's own
 		fr, base, isF := eng.LoadedField(call.Call.Args[0])
-		c.Check(isF && fr.Is("audit", "Writer", auditField(p, "enc")) && eng.Origin(base) == we.Params[0], "R-C06-6", we, in.Pos(), "encoder used by "+eng.CallStr(&call.Call), "the Writer's own encoder", "encoder is "+eng.ValStr(call.Call.Args[0]))
-		// from the failure edge every path returns that error
-		returnsIt := func(x ssa.Instruction) bool {
-			r, ok := x.(*ssa.Return)
-			if !ok {
-				return false
-			}
-			rv := eng.RetVals(r)
-			return eng.Same(rv[0], call) || nonNilAt(rv[0], eng.FactsAt(r)) == eng.Yes
-		}
-		hit, path := eng.Search(we, call, eng.AssumeErr(call, false), returnsIt, func(x ssa.Instruction) bool {
-			if _, ok := x.(*ssa.Return); ok {
-				return !returnsIt(x)
-			}
-			// carrying on (another record, or the sync) after a failed Encode
-			if c2, ok := x.(*ssa.Call); ok {
-				if eng.CalleeIs(&c2.Call, "encoding/json", "*Encoder.Encode") || eng.Callee(&c2.Call) == syn {
-					return true
-				}
-			}
-			return false
-		})
-		c.Check(hit == nil, "R-C06-6", we, in.Pos(), "Encode error of "+eng.CallStr(&call.Call), "an Encode error is returned to the caller", func() string {
-			if hit == nil {
-				return ""
-			}
-			return eng.InstrStr(hit) + " at " + c.P.Pos(hit.Pos()) + " is reached after the failed Encode without returning its error: " + c.P.PathStr(path)
-		}())
-		// the error is tested at all: some If depends on it
-		tested := false
-		eng.Instrs(we, func(x ssa.Instruction) {
-			if ifi, ok := x.(*ssa.If); ok {
-				if v, _, isE := eng.CondOf(ifi.Cond, true).ErrCheck(); isE && eng.Same(v, call) {
-					tested = true
-				}
-			}
-		})
-		c.Check(tested, "R-C06-6", we, in.Pos(), "Encode error tested", "the Encode error is tested", "result unused")
+		c.Check(isF && fr.Is("audit", "Writer", auditField(p, "enc")) && eng.OriginX(base) == ssa.Value(we.Params[0]), "R-C06-6", fn, in.Pos(), "encoder used by "+eng.CallStr(&call.Call), "the Writer's own encoder", "encoder is "+eng.ValStr(call.Call.Args[0]))
+		propagates(fn, call, eng.CallStr(&call.Call))
 	})
 	if nEnc == 0 {
 		c.Bad("R-C06-6", we, we.Pos(), "Encode call", "entries are written with the Writer's json.Encoder (one Write per record)", "no Encoder.Encode call found")
@@ -626,7 +648,7 @@ func c06File(c *eng.Ctx) {
 
 // c06Principal: R-C06-8.
 func c06Principal(c *eng.Ctx) {
-	f := c.P.Method("server", "Server", "getIdentity")
+	f := anchor(c.P, "server", "(*Server).getIdentity")
 	if f == nil || len(f.Params) != 2 {
 		c.Undecided("R-C06-8", nil, 0, "server.(*Server).getIdentity", "anchor does not resolve")
 		return
@@ -674,9 +696,18 @@ func c06Principal(c *eng.Ctx) {
 			}
 			cur = eng.Origin(base)
 		}
-		return eng.Same(cur, who)
+		return eng.SameX(cur, who)
 	}
-	for _, a := range eng.FieldAccesses(f) {
+	// (the principal may be filled in by a helper of getIdentity)
+	var accs []eng.Access
+	seenFn := map[*ssa.Function]bool{}
+	eng.InstrsDeep(f, func(g *ssa.Function, _ ssa.Instruction) {
+		if !seenFn[g] {
+			seenFn[g] = true
+			accs = append(accs, eng.FieldAccesses(g)...)
+		}
+	})
+	for _, a := range accs {
 		if !a.Write || a.Kind != "store" || !eng.IsNamed(a.Field.Owner, "audit", "Principal") {
 			continue
 		}
@@ -686,7 +717,7 @@ func c06Principal(c *eng.Ctx) {
 		switch a.Field.Name {
 		case "IP":
 			want = "the address parsed from r.RemoteAddr"
-			if call, _ := eng.TupleCall(st.Val); call != nil && eng.CalleeIs(&call.Call, "net/netip", "AddrPort.Addr") {
+			if call, _ := eng.TupleCall(eng.OriginX(st.Val)); call != nil && eng.CalleeIs(&call.Call, "net/netip", "AddrPort.Addr") {
 				if pc, idx := eng.TupleCall(call.Call.Args[0]); pc == parse && idx == 0 {
 					ok = true
 				}
